@@ -262,7 +262,15 @@ def analyze(ctx, want):
             return nm.rsplit("::", 1)[0]
 
         def merge_kind(k):
-            return "call:access" if k in ("call:unwrap", "call:index") else k
+            # classes of equivalent sites: `v[i]` / `.get(i).unwrap()` / `.unwrap()` ("access that presumes presence"), and
+            # `debug_assert!(c)` / `if cfg!(debug_assertions) && !c { panic!() }` / `unwrap_or_else(|| panic!())` ("explicit panic
+            # on a condition the table justifies as impossible"): rewriting one member of a class into another does not change
+            # what has to be justified
+            if k in ("call:unwrap", "call:index"):
+                return "call:access"
+            if k == "debug_assert" or re.match(r"call:panicking::(panic|panic_fmt|panic_display|panic_explicit|panic_nounwind)$", k):
+                return "call:explicit"
+            return k
         from . import symex as S_
         voc = S_.vocabulary()
         grp_allowed = Counter()
@@ -283,7 +291,7 @@ def analyze(ctx, want):
             c = Counter()
             locs = {}
             for kind, n in c0.items():
-                k2 = "call:access" if kind in ("call:unwrap", "call:index") else kind
+                k2 = merge_kind(kind)
                 c[k2] += n
                 locs.setdefault(k2, []).extend(locs0[kind])
             for kind, n in sorted(c.items()):
@@ -293,7 +301,7 @@ def analyze(ctx, want):
                     ctx.ob(rule, "site:%s:%s" % (M.short_name(name), kind), True,
                            "%d compiler-inserted debug check(s) on a pointer derived from a live Box/Arc/reference" % n, locs[kind][0])
                     continue
-                rows = [r for r in TABLE if re.search(r[0], name) and (r[1] == kind or (kind == "call:access" and r[1] in ("call:unwrap", "call:index")))]
+                rows = [r for r in TABLE if re.search(r[0], name) and merge_kind(r[1]) == kind]
                 allowed = sum(r[2] for r in rows)
                 ok = n <= allowed
                 moved = False
